@@ -61,7 +61,7 @@ func Verif18NewTorrent(n int, complete bool) *Verif18Torrent {
 	return t
 }
 
-func (t *Verif18Torrent) Digest() core.Digest { return t.Dig }
+func (t *Verif18Torrent) Digest() core.Digest { verif.Yield(); return t.Dig }
 func (t *Verif18Torrent) Stat() *storage.TorrentInfo {
 	return nil
 }
@@ -70,11 +70,14 @@ func (t *Verif18Torrent) Length() int64               { return int64(t.N) }
 func (t *Verif18Torrent) PieceLength(piece int) int64 { return 1 }
 func (t *Verif18Torrent) MaxPieceLength() int64       { return 1 }
 func (t *Verif18Torrent) InfoHash() core.InfoHash     { return t.Hash }
-func (t *Verif18Torrent) Complete() bool              { return t.Bits.Count() == uint(t.N) }
-func (t *Verif18Torrent) BytesDownloaded() int64      { return int64(t.Bits.Count()) }
-func (t *Verif18Torrent) Bitfield() *bitset.BitSet    { return t.Bits.Clone() }
-func (t *Verif18Torrent) String() string              { return "verif18torrent" }
-func (t *Verif18Torrent) HasPiece(piece int) bool     { return t.Bits.Test(uint(piece)) }
+func (t *Verif18Torrent) Complete() bool {
+	verif.Yield() // storage is shared with the connection goroutines: schedule point
+	return t.Bits.Count() == uint(t.N)
+}
+func (t *Verif18Torrent) BytesDownloaded() int64   { return int64(t.Bits.Count()) }
+func (t *Verif18Torrent) Bitfield() *bitset.BitSet { return t.Bits.Clone() }
+func (t *Verif18Torrent) String() string           { return "verif18torrent" }
+func (t *Verif18Torrent) HasPiece(piece int) bool  { return t.Bits.Test(uint(piece)) }
 func (t *Verif18Torrent) MissingPieces() []int {
 	var m []int
 	for i := 0; i < t.N; i++ {
@@ -232,8 +235,8 @@ func VerifAccessLeecherTimeline() {
 }
 
 // VerifAccessFindingSeederServe: a seeding torrent serves pieces at symbolic
-// times; LastReadTime must not be older than the last piece served. Fires on
-// the current tree (FINDINGS.md).
+// times; LastReadTime must not be older than the last piece served.
+// Regression check for FINDINGS.md (fixed upstream by 25099d2).
 func VerifAccessFindingSeederServe() {
 	n := 2
 	e := verif18NewEnv(n, true)
